@@ -211,8 +211,9 @@ func (s *xsys) get(now *big.Int, k keySpec) (bool, stateSpec) {
 		taken.Div(taken, l.ival)
 	}
 	taken = new(big.Int).Mod(taken, bi(1<<32))
-	b.st.Taken = uint32(taken.Uint64())
-	return true, b.st
+	st := b.st // the stored TakenTokens (input of the last override) is kept: nothing reads the recalculated one
+	st.Taken = uint32(taken.Uint64())
+	return true, st
 }
 
 func (s *xsys) set(now *big.Int, k keySpec, st stateSpec) bool {
